@@ -229,7 +229,7 @@ outer:
 
 			callFrame := self.callFrame()
 			fn, found := (*self.Program)[callFrame.Function]
-			if !found || len(fn) == 0 {
+			if !found {
 				panic(fmt.Sprintf("Cannot execute instructions of non-existent routine: %s", callFrame.Function))
 			}
 
